@@ -58,7 +58,13 @@ DC(op, ca, cb) ==
   ELSE IF op = "**" /\ PowNat THEN "Nat"
   ELSE "Int"
 
-Step(k, op, other, res) == [k |-> k, op |-> op, other |-> other, res |-> res]
+\* operators the wrapper classes override (lib/core/_erg_int.py, _erg_nat.py, _erg_float.py): for these the result of
+\* `wrapper op x` must itself be an instance of a wrapper class, not a plain built-in value
+Overrides(c, op) == \/ c \in {"Int", "Nat"} /\ op \in {"+", "-", "*", "//", "**"}
+                    \/ c = "Float" /\ op \in {"+", "-", "*", "/", "//", "**"}
+Step(k, op, other, res) == [k |-> k, op |-> op, other |-> other, res |-> res,
+                            w |-> k = "binr" /\ Overrides(cur.cls, op) /\ other.cls \notin {"Nat!", "Int!", "Float!"}
+                                  /\ (cur.cls = "Float" \/ Rank(ErgCls(other.cls)) <= 2)]      \* int op float is float's business
 Go == Len(hist) < MaxSteps
 Bounded(v) == (v.t = "float" => (v.m < 1000000 /\ v.m > -1000000 /\ v.e <= 8))
 Take(k, op, other, res) ==
@@ -134,5 +140,5 @@ ClassOfValue == CASE cur.v.t = "float" -> ErgCls(cur.cls) = "Float"
 ShowO(o) == [cls |-> o.cls, v |-> Show(o.v)]
 Emit == (Len(hist) = MaxSteps) =>
    PrintT(<<"R", ToJson([start |-> ShowO(start), steps |-> [i \in 1..Len(hist) |-> [k |-> hist[i].k, op |-> hist[i].op, other |-> ShowO(hist[i].other),
-                                                             res |-> ShowO(hist[i].res)]]])>>)
+                                                             res |-> ShowO(hist[i].res), w |-> hist[i].w]]])>>)
 =============================================================================
